@@ -118,6 +118,9 @@ func (Engine) Draw(rt *rapid.T, prop, tier string) any {
 	case "C20":
 		return drawSync(rt, p, tier)
 	}
+	if prop == "C11" {
+		maxB += 12
+	}
 	p.Blocks = drawBlocks(rt, 2, maxB, p.Proto.P2PSig)
 	nrep := rapid.IntRange(1, 3).Draw(rt, "nrep")
 	for i := 0; i < nrep; i++ {
@@ -125,6 +128,18 @@ func (Engine) Draw(rt *rapid.T, prop, tier string) any {
 	}
 	p.Election = max(0, rapid.IntRange(0, 9).Draw(rt, "election")-3)
 	nt := rapid.IntRange(0, 3).Draw(rt, "nticks")
+	if prop == "C11" {
+		// pruning replicas, short retention, frequent timer flushes (GC runs after timer-driven flushes only)
+		p.Proto.MTB = []uint32{8, 12}[rapid.IntRange(0, 1).Draw(rt, "mtb11")]
+		for i := range p.Locals {
+			if !p.Locals[i].KeepLatest && !p.Locals[i].RemoveOld {
+				p.Locals[i].RemoveOld = true
+				p.Locals[i].KeepLatest = rapid.Bool().Draw(rt, "kl11")
+			}
+			p.Locals[i].GCPeriod = uint32(rapid.IntRange(1, 2).Draw(rt, "gcp11"))
+		}
+		nt = rapid.IntRange(2, 8).Draw(rt, "nticks11")
+	}
 	for i := 0; i < nt; i++ {
 		p.Ticks = append(p.Ticks, rapid.IntRange(0, len(p.Blocks)-1).Draw(rt, "tick"))
 	}
@@ -438,21 +453,38 @@ func (p *producer) afterBlock(r *run, b *block.Block) {
 			}
 		}
 	}
+	// discover new deployments: any account may have deployed any variant of a slot's code seen so far
 	for a := 0; a < numAccounts; a++ {
 		for i := range p.ks {
-			h := p.ks[i].hashFor(p.kr.acctHash(a))
-			if _, known := r.w.contracts[h]; known {
-				continue
-			}
-			if cs := bc.GetContractState(h); cs != nil {
-				r.w.contracts[h] = cs.ID
-				p.khash[i] = h
-				p.kalive[i] = true
-				p.kowner[i] = a
-				r.out.Probes["contract_deployed"]++
+			for v := byte(0); v <= p.kver[i]+1; v++ {
+				h := p.variant(i, v).hashFor(p.kr.acctHash(a))
+				if _, known := r.w.contracts[h]; known {
+					continue
+				}
+				if cs := bc.GetContractState(h); cs != nil {
+					r.w.contracts[h] = cs.ID
+					p.khash[i] = h
+					p.kalive[i] = true
+					p.kowner[i] = a
+					r.out.Probes["contract_deployed"]++
+				}
 			}
 		}
 	}
+}
+
+// variant returns (cached) helper contract code of slot i, variant v.
+func (p *producer) variant(i int, v byte) *kContract {
+	if p.vcache == nil {
+		p.vcache = map[[2]byte]*kContract{}
+	}
+	k := [2]byte{byte(i), v}
+	if c, ok := p.vcache[k]; ok {
+		return c
+	}
+	c := buildK(fmt.Sprintf("K%d", i), v)
+	p.vcache[k] = c
+	return c
 }
 
 // runReplicated is the C01/C03/C05/C11 scenario: P produces, replicas follow.
@@ -494,6 +526,14 @@ func (r *run) runReplicated() {
 			sim.Wait()
 			r.out.Faults["timer_flush_tick"]++
 			r.log.Addf("tick after block %d", b.Index)
+			if r.prop == "C11" {
+				for _, n := range reps {
+					r.auditC11(n, "after-timer-flush-and-gc")
+					if r.fail != nil {
+						return
+					}
+				}
+			}
 		}
 	}
 	r.finalChecks(reps)
@@ -547,6 +587,12 @@ func (r *run) feed(n *Node, b *block.Block) {
 		sim.Wait()
 		r.out.Faults["forced_flush"]++
 		r.log.Addf("%s flush@%d", n.Name, b.Index)
+		if r.prop == "C11" {
+			r.auditC11(n, "after-flush")
+			if r.fail != nil {
+				return
+			}
+		}
 		r.compare(n, b.Index, "after-flush")
 		if r.fail != nil {
 			return
@@ -567,6 +613,12 @@ func (r *run) feed(n *Node, b *block.Block) {
 			r.compare(n, b.Index, "after-restart")
 			if r.fail != nil {
 				return
+			}
+			if r.prop == "C11" {
+				r.auditC11(n, "after-restart")
+				if r.fail != nil {
+					return
+				}
 			}
 			r.checkBlockOracles(n, b.Index)
 			break
